@@ -9,6 +9,78 @@ ROOT = os.path.dirname(os.path.dirname(os.path.abspath(__file__)))
 
 # id -> (level, technique, level text, level note, design section)
 CHECKS = {
+    "C01": ("exploration",
+            "differential reference-model monitor (NumPy) over stratified generated inputs + source-text line probe of construction arms",
+            "Thousands (quick) to ~2*10^5 (thorough) real from_array/to_array round trips over the cross product of shape, "
+            "alphabet (dtype boundaries to 2^63-1, negatives), sparsity, common, counts, mapping and way-back classes are "
+            "compared element-wise with the (mapped) input; input classes that select each construction strategy are "
+            "required to occur, and a sys.monitoring line probe reports which arm each case executed.",
+            "Held on the generated inputs only; integer categories; N=0 without common/mapping is refused by contract and not generated.",
+            "DESIGN.md section 2 C01"),
+    "C06": ("exploration",
+            "history + executable model: NumPy model carried beside every live index through seeded operation histories",
+            "Seeded histories of 1-15 operations over a pool of live indexes; after every step the receiver and every "
+            "result are compared with the NumPy model (to_array), operands are byte-snapshotted, requested copies are "
+            "checked for shared storage, observations (get/items/to_dict/common_rowids) and entry-wise set updates are "
+            "compared with the model. 3*10^4 (quick) to ~3*10^6 (thorough) judged operations.",
+            "Sampled histories; slices1d order, duplicate precedence/order lists and short sliced() argument lists are "
+            "deliberately not demanded (see DESIGN.md).",
+            "DESIGN.md section 2 C06"),
+    "C07": ("exploration",
+            "invariant at quiescent points: library validator + range/arity/non-emptiness conditions after every step of a history",
+            "The C06 history engine with the well-formedness oracle: validate(True) plus the conditions it does not check, "
+            "and the named consequences (abscissae, sparsity, inferred cube shape), evaluated after each top-level call returns.",
+            "Transient states inside operations are not inspected; sampled histories.",
+            "DESIGN.md section 2 C07"),
+    "C08": ("exploration",
+            "set-algebra oracle over an exhaustive small-universe enumeration + in-situ kernel-call monitor",
+            "All ordered pairs of subsets of a 7- (quick) / 9-element (thorough) universe under four order-preserving "
+            "embeddings into uint32 (incl. 0 and 2^32-1) through the three kernels and three wrappers, structured random "
+            "arrays up to 10^5 elements, the None/copy conventions, multi-way unions, and every kernel call made by real "
+            "cube walks and set updates (wrappers installed at every binding site) are judged against Python set arithmetic.",
+            "Exhaustive only within the stated universe; random beyond it.",
+            "DESIGN.md section 2 C08"),
+    "C09": ("exploration",
+            "sanitizers: AddressSanitizer+UBSan rebuild and bounds-checked rebuild of the working-tree .pyx, stderr-growth monitor per call",
+            "Every ordered pair of subsets of a 6- (quick) / 8-element (thorough) universe, each operand presented as own "
+            "allocation / view inside a larger buffer / strided view / read-only array, runs through the kernels of an "
+            "ASan+UBSan build (red zones around each NumPy allocation; report tied to the call in flight; a libc over-read "
+            "canary proves the pipeline is live) and of a bounds-checked build (IndexError per out-of-range memoryview "
+            "access, also inside larger buffers); plus multi-way unions and in-situ cube walks on both builds.",
+            "A clean run is absence of reports on the executions produced, not memory safety; raw-pointer code would "
+            "escape the bounds-checked build, intra-buffer overruns escape ASan.",
+            "DESIGN.md section 2 C09"),
+    "C10": ("exploration",
+            "round-trip monitor on real files over word-size/arity/emptiness classes",
+            "Generated entry sets (arity 1-4, 0-5000 entries, coordinate and common magnitudes drawn independently from "
+            "the four word-size classes, empty and long row-id arrays, ids to 2^32-1) and well-formed indexes are saved to "
+            "real files and loaded back; common, key set, key element types, association, array dtype and content, and the "
+            "rebuilt index (== and validate) are compared.",
+            "Sampled inputs; a symmetric writer/reader change is C11's business.",
+            "DESIGN.md section 2 C10"),
+    "C11": ("exploration",
+            "independent codec as oracle: byte comparison, independent decode, loader on independently encoded files, sparse-file size-field cases",
+            "An encoder/decoder written from the format docstring only judges (1) the bytes written, (2) decodes them "
+            "independently, (3) feeds the library loader independently written files under every admissible index-word / "
+            "row-id-word size, (4) checks the size field for 2^30..2^32-1 row ids through duck-typed arrays on sparse files.",
+            "The independent codec encodes my reading of the docstring (little-endian unsigned, narrowest index word, "
+            "dimension byte 0 for an empty index).",
+            "DESIGN.md section 2 C11"),
+    "C12": ("fault_enumeration",
+            "crash-point enumeration: every byte prefix of every generated file is loaded; strace write-trace monitor; SIGKILL experiment",
+            "For each generated file (<= ~6 KB) every cut point 0 <= k < len is loaded from a really truncated file and "
+            "must raise (1.2*10^5 cut points quick, ~4*10^6 thorough); a strace monitor confirms the writer only appends "
+            "(which makes byte prefixes the complete set of torn states); thorough SIGKILLs a saving subprocess at seeded "
+            "file sizes and loads what is on disk.",
+            "Crash model = byte prefix (checked by the write trace); files are small so that all cut points can be enumerated.",
+            "DESIGN.md section 2 C12"),
+    "C15": ("exploration",
+            "history + model: value counts on the NumPy model; equality against constructor-built twins and perturbed twins",
+            "The C06 history engine with two oracles: after every library-chosen normalisation count(common) must be the "
+            "maximum count on the model (ties free); after every step == and != (both directions) are compared with the "
+            "constructor-built twin, with twins perturbed in one cell / shape / common, and with non-index objects.",
+            "Sampled histories; ill-formed or model-divergent objects end their history (blame C07/C06).",
+            "DESIGN.md section 2 C15"),
     "C19": ("exploration",
             "reference-model monitor (numpy.iinfo) over an exhaustive threshold partition + in-situ call monitor",
             "Every (max,min) pair of the threshold partition (all powers of two +-1, both signs, one- and two-argument "
